@@ -97,10 +97,11 @@ func Check03(c CaseHist, r *core.Rec) {
 			continue
 		}
 		before := iu.Href(false)
+		val := valueFor(iu, op)
 		if mok {
-			Model.Set(mu, op.Setter, string(op.Value))
+			Model.Set(mu, op.Setter, val)
 		}
-		ApplySetter(iu, op.Setter, string(op.Value))
+		ApplySetter(iu, op.Setter, val)
 		if iu.Href(false) != before {
 			r.NT()
 			r.Class("changed-by:" + spec.SetterNames[op.Setter])
